@@ -208,6 +208,11 @@ class ElemSets:
         known = RF.facts_at(func, call)
         if known is None:
             return None
+        # what the assignments on every path to the call establish about
+        # the receiver's attributes (x.host = None, x = Cls(namespace=...))
+        from . import attrstate
+        known = list(known) + attrstate.atoms_before(
+            func, call, self.repo, getattr(self, 'nonnull', ()))
         recv = call.func.value
         out = set()
         self.rel_log = getattr(self, 'rel_log', [])
@@ -236,6 +241,44 @@ class ElemSets:
         self.rel_log.append((func.qualname, norm(call, 60), len(paths), kept,
                              sorted(out)))
         return out if kept else None
+
+    def recv_candidates(self, name, func):
+        """repo classes a local can hold: it is bound only to constructor
+        calls of repo classes and to `<param>.copy()` where an isinstance
+        test at that point names the classes of <param>"""
+        from .cfg import stmt_facts
+        out = []
+        sf = stmt_facts(func.node)
+        for st, (fs, _t) in sf.items():
+            if not (isinstance(st, ast.Assign) and len(st.targets) == 1 and
+                    isinstance(st.targets[0], ast.Name) and
+                    st.targets[0].id == name):
+                continue
+            v = st.value
+            if isinstance(v, ast.Call) and isinstance(v.func, ast.Name):
+                c = self.repo.find_class(v.func.id)
+                if c is None:
+                    return None
+                out.append(c)
+            elif isinstance(v, ast.Call) and \
+                    isinstance(v.func, ast.Attribute) and \
+                    v.func.attr == 'copy' and \
+                    isinstance(v.func.value, ast.Name):
+                src = v.func.value.id
+                found = None
+                for t, pol in fs:
+                    if pol and isinstance(t, ast.Call) and \
+                            dotted(t.func) == 'isinstance' and \
+                            norm(t.args[0]) == src:
+                        tt = t.args[1]
+                        found = [self.repo.find_class(norm(x)) for x in (
+                            tt.elts if isinstance(tt, ast.Tuple) else [tt])]
+                if not found or any(c is None for c in found):
+                    return None
+                out += found
+            else:
+                return None
+        return out or None
 
     def recv_class(self, e, func, tenv):
         """repo class of a receiver expression, when evident"""
@@ -291,6 +334,29 @@ class ElemSets:
             if isinstance(e.func, ast.Attribute) and \
                     e.func.attr == 'tocimxml':
                 rc = self.recv_class(e.func.value, func, tenv)
+                if rc is None and isinstance(e.func.value, ast.Name):
+                    # a local bound to a copy of an argument whose class an
+                    # isinstance test fixed, or to a constructor call
+                    cands = self.recv_candidates(e.func.value.id, func)
+                    if cands:
+                        out = set()
+                        for rc_ in cands:
+                            m_ = rc_.find_method('tocimxml')
+                            if m_ is None:
+                                return None
+                            consts_ = {p_: d_.value for p_, d_ in
+                                       m_.param_defaults().items()
+                                       if isinstance(d_, ast.Constant)}
+                            rr_ = self.ret_elems_at(m_, consts_, e, func,
+                                                    depth + 1)
+                            if rr_ is None:
+                                rr_ = self.ret_elems(m_, depth + 1, consts_)
+                                if rr_ is not None and len(rr_) > 1:
+                                    self.state_dependent = True
+                            if rr_ is None:
+                                return None
+                            out |= rr_
+                        return out
                 if rc is not None:
                     m = rc.find_method('tocimxml')
                     if m is not None:
